@@ -95,8 +95,8 @@ Lemma join_head_inv s j c :
   Inv (join_head s j c).
 Proof.
   intros I U A NN. unfold join_head, after. destruct (is_done (ts s c)) eqn:D.
-  - destruct I. constructor; simpl; rewrite ?D; try solve [jn_auto].
-    constructor; [reflexivity|assumption].
+  - destruct I. constructor; simpl; rewrite ?D; try solve [jn_auto];
+      try solve [constructor; [reflexivity|assumption]].
   - assert (ND : ts s c <> TDone) by (intro E; rewrite E in D; discriminate).
     destruct I. constructor; simpl; auto; try solve [jn_auto].
     intros j' c' H. upd_cases; try (inv H); auto; try congruence;
